@@ -170,7 +170,7 @@ def tier_defs(u, tier):
 
 def job(u, case, tier, canary):
     """returns dict(status = ok|fail|infra, props=[...], ...)"""
-    name = "%s.%s%s" % (u["unit"], case["name"], ".canary" if canary else "")
+    name = "%s.%s%s" % (u["unit"], case["name"], ".canary" if canary is True else "")
     wd = os.path.join(WORK, u["property"], name)
     shutil.rmtree(wd, ignore_errors=True)
     os.makedirs(wd)
@@ -212,7 +212,7 @@ def _job(u, case, tier, canary, wd, res):
         defs.append("-DCANARY")
     key = None
     if not os.environ.get("VERIF_NO_CACHE"):
-        key = cache_key(u, defs, {k: (case.get("unwind") if k == "case_unwind" else u.get(k)) for k in ("case_unwind", "function", "replace", "unwind", "unwind_" + tier, "unwindset", "unwindset_" + tier,
+        key = cache_key(u, defs, {k: (case.get("unwind") if k == "case_unwind" else str(canary) if k == "canary_mode" else u.get(k)) for k in ("case_unwind", "canary_mode", "function", "replace", "unwind", "unwind_" + tier, "unwindset", "unwindset_" + tier,
                                                          "object_bits", "solver", "extra_cbmc", "malloc_may_fail", "leak_check",
                                                          "loop_contracts", "remove_function_pointers")})
         cf_ = os.path.join(CACHE, (key or "x") + ".json")
@@ -328,7 +328,7 @@ def _after_instrument(u, case, tier, canary, wd, res, cmd, fn):
         cb += ["--sat-solver", u["solver"]]
     cb += u["extra_cbmc"]
     n_posts = len(u["labels"])
-    if canary and not u.get("plain"):
+    if canary is True and not u.get("plain"):
         cb += ["--property", "%s.postcondition.%d" % (fn, n_posts + 1)]
     res["checker_cmd"] = " ".join(cmd[:-2]) + " ; " + " ".join(cb)
     rc, txt, dt = run(cb, wd, u["timeout"], u["mem_gb"], out=os.path.join(wd, "cbmc.json"))
@@ -376,9 +376,9 @@ def _after_instrument(u, case, tier, canary, wd, res, cmd, fn):
     res["props"] = props
     if not props:
         raise Infra("zero obligations generated")
-    if not canary and not u.get("plain"):
+    if canary is not True and not u.get("plain"):
         got = len([p for p in props if re.match(r"^%s\.postcondition\.\d+$" % re.escape(fn), p["id"])])
-        if got != n_posts:
+        if got != n_posts + (1 if canary else 0):
             raise Infra("postcondition count %d differs from POSTS labels %d" % (got, n_posts))
     for p in props:
         if p["status"] == "FAILURE" and any(v in p["desc"] for v in VACUITY_PATTERNS):
@@ -393,8 +393,16 @@ def _after_instrument(u, case, tier, canary, wd, res, cmd, fn):
         c = [p for p in props if p.get("label") == "CANARY"]
         if not c:
             raise Infra("canary postcondition not found")
-        res["status"] = "ok" if c[0]["status"] == "FAILURE" else "vacuous"
-        return
+        if canary is True:
+            res["status"] = "ok" if c[0]["status"] == "FAILURE" else "vacuous"
+            return
+        # merged canary: the clause that must fail is checked in the same run as the real obligations;
+        # it is not an obligation of the unit
+        props = [p for p in props if p.get("label") != "CANARY"]
+        res["props"] = props
+        if c[0]["status"] != "FAILURE":
+            res["status"] = "vacuous"
+            return
     real = [p for p in props if p["status"] == "FAILURE" and ".unwind." not in p["id"]]
     if unwind_failed and not real:
         raise Infra("unwinding assertion failed (%s at %s): the stated bound no longer closes this loop" % (unwind_failed[0]["id"], unwind_failed[0]["loc"]))
@@ -654,9 +662,13 @@ def check_property(pid, tier, only_unit=None, keep=False, no_canary=False, only_
                 continue
             if only_case and c["name"] != only_case:
                 continue
-            jobs.append((u, c, False))
-            if not no_canary and not u.get("no_canary") and c.get("canary", True):
-                jobs.append((u, c, True))
+            want_canary = not no_canary and not u.get("no_canary") and c.get("canary", True)
+            if want_canary and not u.get("canary_separate"):
+                jobs.append((u, c, "merged"))     # one run: real obligations + the clause that must fail
+            else:
+                jobs.append((u, c, False))
+                if want_canary:
+                    jobs.append((u, c, True))
     results = []
     with cf.ThreadPoolExecutor(max_workers=NCPU) as ex:
         futs = {ex.submit(job, u, c, tier, can): (u, c, can) for (u, c, can) in jobs}
@@ -667,7 +679,7 @@ def check_property(pid, tier, only_unit=None, keep=False, no_canary=False, only_
     violations = []
     known_hits = []
     unit_ev = {}
-    for (u, c, can), r in sorted(results, key=lambda x: (x[0][0]["unit"], x[0][1]["name"], x[0][2])):
+    for (u, c, can), r in sorted(results, key=lambda x: (x[0][0]["unit"], x[0][1]["name"], str(x[0][2]))):
         ev = unit_ev.setdefault(u["unit"], {
             "function": u["function"], "source": u["source"], "mode": u["mode"],
             "bounds": u.get("bounds", u.get("why_proof", "")), "cases": 0, "obligations": 0, "discharged": 0,
@@ -678,7 +690,13 @@ def check_property(pid, tier, only_unit=None, keep=False, no_canary=False, only_
         if r["status"] == "infra":
             infra.append("%s.%s%s: %s" % (u["unit"], c["name"], " (canary)" if can else "", r["why"]))
             continue
-        if can:
+        if can == "merged":
+            if r["status"] == "vacuous":
+                infra.append("%s.%s: canary postcondition verified - precondition or assumed contracts are contradictory" % (u["unit"], c["name"]))
+                ev["canary"] = "GREEN (vacuous!)"
+                continue
+            ev["canary"] = "fails as it must (same run)"
+        elif can:
             if r["status"] == "vacuous":
                 infra.append("%s.%s: canary postcondition verified - precondition or assumed contracts are contradictory" % (u["unit"], c["name"]))
                 ev["canary"] = "GREEN (vacuous!)"
@@ -729,7 +747,7 @@ def check_property(pid, tier, only_unit=None, keep=False, no_canary=False, only_
     bdi = sum(e["discharged"] for e in bounded_units)
     samples = []
     for (u, c, can), r in results:
-        if can or r["status"] == "infra":
+        if can is True or r["status"] in ("infra", "vacuous"):
             continue
         for p in r["props"]:
             if "label" in p and len(samples) < 12:
